@@ -31,6 +31,9 @@ type op struct {
 	Size int    `json:"size"`
 	Fail string `json:"fail,omitempty"` // "", nobucket, baddigest, denied
 	Keys []int  `json:"keys,omitempty"` // batch
+	// Quiet (batch): the request asks for a result that lists failures only (<Quiet>true</Quiet>); what is notified does
+	// not depend on how much the answer tells
+	Quiet bool `json:"quiet,omitempty"`
 }
 
 type caseA struct {
@@ -338,15 +341,32 @@ func execA(c caseA) (st stats, err error) {
 					for _, k := range o.Keys {
 						kv = append(kv, s3c.KV{K: fmt.Sprintf("%s.b%d", key, k)})
 					}
-					r, err = cl.Call("POST", "/"+b, s3c.Q("delete", ""), nil, s3c.DeleteXML(kv, false))
+					r, err = cl.Call("POST", "/"+b, s3c.Q("delete", ""), nil, s3c.DeleteXML(kv, o.Quiet))
 					if err == nil && r.OK() {
 						var dr struct {
 							Deleted []struct {
 								Key string `xml:"Key"`
 							} `xml:"Deleted"`
+							Errors []struct {
+								Key string `xml:"Key"`
+							} `xml:"Error"`
 						}
 						if e := s3c.ParseXML(r, &dr); e == nil {
 							del := map[string]bool{}
+							if o.Quiet && len(dr.Deleted) == 0 {
+								// an answer that lists the failures only: everything else was deleted
+								bad := map[string]bool{}
+								for _, x := range dr.Errors {
+									bad[x.Key] = true
+								}
+								for _, x := range kv {
+									if !bad[x.K] {
+										dr.Deleted = append(dr.Deleted, struct {
+											Key string `xml:"Key"`
+										}{x.K})
+									}
+								}
+							}
 							for _, d := range dr.Deleted {
 								add(expect{"s3:ObjectRemoved:DeleteObjects", d.Key, -1, "", ""})
 								del[d.Key] = true
@@ -562,6 +582,7 @@ func TestC19A(t *testing.T) {
 				}
 			}
 			if o.Kind == "batch" {
+				o.Quiet = rapid.IntRange(0, 2).Draw(t, "quiet") == 0
 				o.Keys = rapid.SliceOfNDistinct(rapid.IntRange(0, 15), 1, rapid.SampledFrom([]int{4, 4, 12}).Draw(t, "batch_max"), rapid.ID[int]).Draw(t, "batch_keys")
 			}
 			return o
